@@ -219,9 +219,12 @@ theorem rCBins_wCBins (version binLimit : Nat) (hv : version = 1 ∨ version = 2
       simp only [rCBinLoop, List.append_nil, List.reverse_reverse]
       rw [List.mergeSort_of_pairwise (normCBin_sorted version r.bins hs.bins)]
 
-theorem csiBinLimit_lt (d : Nat) : csiBinLimit d + 1 < 4294967296 := by
-  unfold csiBinLimit Hts.Model.Coord.csiT0
-  omega
+theorem csiBinLimit_lt (d : Nat) (h : d ≤ 20) : csiBinLimit d + 1 < 4294967296 := by
+  unfold csiBinLimit
+  have : d = 0 ∨ d = 1 ∨ d = 2 ∨ d = 3 ∨ d = 4 ∨ d = 5 ∨ d = 6 ∨ d = 7 ∨ d = 8 ∨ d = 9 ∨ d = 10 ∨ d = 11 ∨
+      d = 12 ∨ d = 13 ∨ d = 14 ∨ d = 15 ∨ d = 16 ∨ d = 17 ∨ d = 18 ∨ d = 19 ∨ d = 20 := by omega
+  rcases this with h | h | h | h | h | h | h | h | h | h | h | h | h | h | h | h | h | h | h | h | h <;>
+    subst h <;> decide
 
 theorem rAux_w (aux rest : Bytes) (h : aux.length < 2147483648) :
     rAux (aux.length : Int) (aux ++ rest) = .ok (aux, rest) := by
@@ -261,7 +264,7 @@ theorem readCsi_writeCsi (i : CIndex) (h : CWF i) : readCsi (writeCsi i) = .ok (
   have hlen : (Csi.sort i).refs.length = i.refs.length := by
     unfold Csi.sort; split <;> simp
   have hrefs := csort_refs_ok i h
-  have hblt := csiBinLimit_lt i.depth
+  have hblt := csiBinLimit_lt i.depth (by have := h.geom; omega)
   have hv8 : (UInt8.ofNat i.version).toNat = i.version := by
     rcases h.version with hv | hv <;> rw [hv] <;> decide
   simp only [List.append_assoc]
